@@ -33,12 +33,38 @@ CTS = ["t/1", "t/1;a=b"]      # content types are compared as whole strings: par
 MORE_CTS = CTS + ["t/2", "t/1; a=b", "T/1", "t/1 ", "", "t/1;a=c"]
 
 
+class _Pair:
+    """the container under test plus a NEIGHBOUR container living in the same process: whatever is added to the first is also
+    added to the neighbour (under another name) and removed from it again two calls later.  Containers are independent objects;
+    what the neighbour does must never show in the first."""
+    def __init__(self):
+        from basyx.aas.adapter.aasx import DictSupplementaryFileContainer
+        self.c = DictSupplementaryFileContainer()
+        self.n = DictSupplementaryFileContainer()
+        self.pending: List[str] = []
+
+    def neighbour(self, op):
+        try:
+            if op[0] == "add":
+                self.pending.append(self.n.add_file("/n/" + op[1].strip("/"), io.BytesIO(op[2].encode()), op[3]))
+            if len(self.pending) > 2 or op[0] == "delete":
+                if self.pending:
+                    self.n.delete_file(self.pending.pop(0))
+        except Exception:
+            pass                      # the neighbour's own fate is not what is being observed
+
+
 def _container():
-    from basyx.aas.adapter.aasx import DictSupplementaryFileContainer
-    return DictSupplementaryFileContainer()
+    return _Pair()
 
 
 def impl_step(c, op: List[Any]) -> Any:
+    if isinstance(c, _Pair):
+        if op[0] in ("add", "delete"):
+            r = impl_step(c.c, op)
+            c.neighbour(op)
+            return r
+        return impl_step(c.c, op)
     k = op[0]
     if k == "view":
         return [impl_step(c, ["iter"]), [[impl_step(c, ["contains", n]), impl_step(c, ["ctype", n]),
@@ -183,10 +209,13 @@ def correspond(ctx: C.Ctx, cov: C.Coverage) -> List[C.Disagreement]:
 
 def check_sequence(seq) -> Optional[C.Failing]:
     """The property, stated over the implementation: reference map name -> (bytes, content type)."""
-    c = _container()
+    pair = _container()
+    c = pair.c
     exp = {}
     for oi, op in enumerate(seq):
         prefix = seq[: oi + 1]
+        if oi:
+            pair.neighbour(seq[oi - 1])
         if op[0] == "add":
             _, n, d, ct = op
             try:
